@@ -110,6 +110,7 @@ struct ArgDef {
   std::string pairFormat;     // key-value kinds: "" = default
   std::vector<std::pair<int, int>> constraints;   // (ConstraintType, index of the other argument)
   std::string desc;           // description (usage tests)
+  std::vector<std::pair<int, int>> posFormats;   // (value position, 1 uppercase / 2 lowercase) - addFormatPos()
   int printDefault = 0;       // 0: leave the library default, 1: setPrintDefault(true), 2: setPrintDefault(false)
 };
 struct HConstraint { int type = 0; std::vector<int> args; };
@@ -223,6 +224,10 @@ inline bool convertScalar(int kind, const std::string &text, std::string &canon)
 inline std::string applyFormat(int fmt, std::string v) {
   if (fmt == 1) for (auto &c : v) c = static_cast<char>(toupper(static_cast<unsigned char>(c)));
   if (fmt == 2) for (auto &c : v) c = static_cast<char>(tolower(static_cast<unsigned char>(c)));
+  return v;
+}
+inline std::string applyPosFormat(const ArgDef &a, size_t pos, std::string v) {
+  for (auto &pf : a.posFormats) if (static_cast<size_t>(pf.first) == pos) v = applyFormat(pf.second, v);
   return v;
 }
 // returns "" if all checks pass, else the name of the failing check
@@ -360,10 +365,14 @@ inline std::string modelAssignContainer(const ArgDef &a, int kind, const std::ve
     if (et == 't') {
       std::string c;
       char tt = st.fixedIndex == 1 ? 's' : 'i';
+      text = applyPosFormat(a, st.fixedIndex, tok);   // tuples only have formatters per position
       if (!convertElem(tt, text, c)) return "conversion";
       v.elems[st.fixedIndex++] = c;
       continue;
     }
+    // positional formatters: the position is the index the new value gets (vector: current size; arrays: next index)
+    if (kind == K_VEC_INT || kind == K_VEC_STRING) text = applyPosFormat(a, v.elems.size(), text);
+    if (kind == K_ARRAY3 || kind == K_CARRAY3) text = applyPosFormat(a, st.fixedIndex, text);
     std::string canon;
     if (!convertElem(et, text, canon)) return "conversion";
     if (et == 'p') {
@@ -445,12 +454,19 @@ inline ModelResult evalModel(const Config &cfg, const Line &line) {
           return undefinedR("stray value behind a multi-value argument");
         if (ui > 0 && line[ui - 1].arg >= 0 && !line[ui - 1].hasValue && sk[cfg.args[line[ui - 1].arg].slot] != K_FLAG)
           return undefinedR("stray value behind an argument used without its (optional) value");
+        for (auto &pa : cfg.args) if (pa.spec == "-") return undefinedR("bare value while a positional argument is defined");
         return reject("stray value without key");
       }
       return reject("unknown key '" + u.keyText + "'");
     }
     const ArgDef &a = cfg.args[u.arg];
     const int kind = sk[a.slot];
+    if (a.spec == "-" && ui > 0 && line[ui - 1].arg >= 0) {
+      // a bare word belongs to the preceding argument if that one takes multiple values or was used without its optional value
+      const ArgDef &pa = cfg.args[line[ui - 1].arg];
+      if ((pa.multiValue && isContainer(sk[pa.slot])) || (!line[ui - 1].hasValue && sk[pa.slot] != K_FLAG && pa.spec != "-"))
+        return undefinedR("positional value directly behind a multi-value / optional-value argument");
+    }
     ArgState &as = st[u.arg];
     Val &v = r.state[a.slot];
     const bool ignoreCard = u.source != SRC_ARGV;
@@ -471,6 +487,8 @@ inline ModelResult evalModel(const Config &cfg, const Line &line) {
     if (kind == K_FLAG) {
       if (u.hasValue) return undefinedR("flag with value");
     } else if (!u.hasValue) {
+      if (ui + 1 < line.size() && line[ui + 1].arg >= 0 && cfg.args[line[ui + 1].arg].spec == "-")
+        return undefinedR("argument without value directly in front of a positional value");
       if (!a.optionalValue) return reject("missing value");
     }
     // --- assignValue
@@ -593,6 +611,7 @@ inline void writeConfig(verif::Writer &w, const Config &c) {
     for (auto &ch : a.checks) w.u(ch.type).s(ch.a).s(ch.b);
     w.u(a.constraints.size());
     for (auto &ct : a.constraints) w.u(ct.first).u(ct.second);
+    if (!a.posFormats.empty()) { w.tag("pf").u(a.posFormats.size()); for (auto &pf : a.posFormats) w.u(pf.first).u(pf.second); }
     w.nl();
   }
   for (auto &h : c.hcs) { w.tag("hc").u(h.type).u(h.args.size()); for (int x : h.args) w.u(x); w.nl(); }
@@ -614,6 +633,7 @@ inline Config readConfig(verif::Reader &r) {
     for (size_t j = 0; j < nc; ++j) { Check ch; ch.type = static_cast<int>(r.u()); ch.a = r.s(); ch.b = r.s(); a.checks.push_back(ch); }
     size_t nct = r.u();
     for (size_t j = 0; j < nct; ++j) { int t = static_cast<int>(r.u()); int o = static_cast<int>(r.u()); a.constraints.push_back({t, o}); }
+    if (!r.eof() && r.peek() == "pf") { r.tag(); size_t np = r.u(); for (size_t j = 0; j < np; ++j) { int i = static_cast<int>(r.u()); int f = static_cast<int>(r.u()); a.posFormats.push_back({i, f}); } }
     c.args.push_back(a);
   }
   for (size_t i = 0; i < nh; ++i) { HConstraint h; r.tag(); h.type = static_cast<int>(r.u()); size_t n = r.u(); for (size_t j = 0; j < n; ++j) h.args.push_back(static_cast<int>(r.u())); c.hcs.push_back(h); }
@@ -681,6 +701,8 @@ struct RealResult {
   bool setupThrew = false;              // exception while defining arguments (not during evaluation)
 };
 RealResult runReal(const Config &cfg, const RealInput &in);
+// forgets process-wide library state (the Groups singleton), as at process start
+void resetGlobalState();
 
 inline std::string compareStates(const Config &cfg, const std::map<int, Val> &model, const std::map<int, Val> &real) {
   const auto &sk = slotKinds();
